@@ -6,6 +6,7 @@ fresh target directory and returns a `Facts` object.  Nothing of the repository 
 """
 import json
 import os
+import re
 import shutil
 import subprocess
 import sys
@@ -99,6 +100,61 @@ def extract_fixture(path):
 
 
 # ------------------------------------------------------------------------------------------
+
+def _split_top(s):
+    out, depth, cur = [], 0, ""
+    for ch in s:
+        if ch in "(<[":
+            depth += 1
+        elif ch in ")>]":
+            depth -= 1
+        if ch == "," and depth == 0:
+            out.append(cur.strip())
+            cur = ""
+        else:
+            cur += ch
+    if cur.strip():
+        out.append(cur.strip())
+    return out
+
+
+def _norm_ty(t):
+    t = re.sub(r"for<[^>]*>\s*", "", t)
+    t = re.sub(r"'\w+\s*", "", t)
+    t = re.sub(r"(\w+::)+", "", t)
+    return t.replace(" ", "")
+
+
+def _dyn_args(cn):
+    m = re.search(r"as std::ops::Fn(?:Mut|Once)?<\((.*)\)>>::call", cn)
+    if not m:
+        return None
+    return [_norm_ty(x) for x in _split_top(m.group(1))]
+
+
+def _fn_params(sig):
+    m = re.search(r"fn\((.*)\)(\s*->.*)?$", sig)
+    if not m:
+        return None
+    inner = m.group(1)
+    # cut at the matching close paren of the parameter list
+    depth, end = 0, len(inner)
+    return [_norm_ty(x) for x in _split_top(inner)]
+
+
+def _sig_compatible(site, params):
+    if site is None or params is None:
+        return True
+    if len(site) != len(params):
+        return False
+    for a, b in zip(site, params):
+        if a == b:
+            continue
+        if re.fullmatch(r"&?(mut)?[A-Z]", a):
+            continue
+        return False
+    return True
+
 
 PANIC_PATHS = (
     "core::panicking::", "std::rt::begin_panic", "std::rt::panic_fmt", "core::panicking::panic",
@@ -208,20 +264,37 @@ class Facts:
                         tid = m.get("rid") or m.get("id")
                         out.append({"to": tid, "name": self._mname(m), "kind": "mention",
                                     "line": st.get("ln"), "bb": bi})
+                        for fw in m.get("fwd", []):
+                            out.append({"to": fw["id"], "name": fw["path"], "kind": "fwd", "line": st.get("ln"), "bb": bi})
                         if st.get("addr_taken"):
                             addr_taken.add(tid)
                 t = b["term"]
                 if t["k"] != "Call":
                     continue
+                c0 = t.get("callee")
+                stores = bool(c0) and (c0.get("rpath") or c0["path"]).startswith("std::boxed::Box::<T>::new")
                 for m in t.get("mentions", []):
                     tid = m.get("rid") or m.get("id")
-                    out.append({"to": tid, "name": self._mname(m), "kind": "mention",
+                    out.append({"to": tid, "name": self._mname(m), "kind": "store" if stores else "mention",
                                 "line": t.get("ln"), "bb": bi})
+                    for fw in m.get("fwd", []):
+                        out.append({"to": fw["id"], "name": fw["path"], "kind": "fwd", "line": t.get("ln"), "bb": bi})
                 c = t.get("callee")
                 if c is None:
                     out.append({"to": None, "name": "<indirect %s>" % t.get("indirect"), "kind": "dyn",
-                                "line": t.get("ln"), "bb": bi})
+                                "line": t.get("ln"), "bb": bi, "sig": None})
                     continue
+                cn = c.get("rpathargs") or c.get("pathargs") or ""
+                if "dyn " in cn and re.search(r"as std::ops::Fn(Mut|Once)?<", cn):
+                    out.append({"to": None, "name": cn, "kind": "dyn", "line": t.get("ln"), "bb": bi,
+                                "sig": _dyn_args(cn)})
+                    continue
+                if (c.get("rpath") or c["path"]).startswith("std::boxed::Box::<T>::new"):
+                    for m in t.get("mentions", []):
+                        addr_taken.add(m.get("rid") or m.get("id"))
+                for fw in c.get("fwd", []):
+                    out.append({"to": fw["id"], "name": self.name_of(fw["id"]) if fw["id"] in self.fns else fw["path"],
+                                "kind": "fwd", "line": t.get("ln"), "bb": bi, "via": self.callee_name(c)})
                 tid = self.callee_id(c)
                 resolved = ("rid" in c) or c.get("res") is True
                 if "trait" in c and not ("rid" in c):
@@ -240,6 +313,18 @@ class Facts:
         self._edges = edges
         self.addr_taken = addr_taken
         return edges
+
+    def dyn_targets(self, e):
+        """Address-taken workspace functions whose parameter list is compatible with the
+        argument tuple of the indirect call site (generic parameters act as wildcards)."""
+        out = []
+        for a in sorted(self.addr_taken):
+            f = self.fns.get(a)
+            if f is None:
+                continue
+            if e.get("sig") is None or _sig_compatible(e["sig"], _fn_params(f.get("sig", ""))):
+                out.append(a)
+        return out
 
     def _mname(self, m):
         tid = m.get("rid") or m.get("id")
@@ -268,7 +353,9 @@ class Facts:
                 targets = []
                 if e["kind"] == "dyn":
                     if follow_dyn:
-                        targets = [a for a in self.addr_taken if a in self.fns]
+                        targets = self.dyn_targets(e)
+                elif e["kind"] == "store":
+                    targets = []
                 elif e["to"] in self.fns:
                     targets = [e["to"]]
                 for t in targets:
